@@ -113,7 +113,7 @@ func execC11(t *testing.T, c C11Case) (v Verdict) {
 			}
 		})
 		// target handler
-		svc.Stream("t", true, true, func(s grpcServerStream) error {
+		svc.Stream("t", c.Kind != kit.KindServer, c.Kind != kit.KindClient, func(s grpcServerStream) error { // registered with the streaming directions of the kind under test
 			switch c.Mode {
 			case "handler-early":
 				for i := 0; i < c.K; i++ {
